@@ -516,8 +516,8 @@ const SAFE_LO: f64 = 4.464794497196387e-103; // 2^-340
 const SAFE_HI: f64 = 2.2397447421778042e102; // 2^340
 
 fn oracle(plu: bool, input: &Input, out: &Out) -> Result<(), String> {
-    // The statement says "reported as an error" / "rejected": WHICH error kind is compared with the model only; for
-    // the property every error is a refusal.
+    // The statement says "reported as an error" / "rejected" and names no error kind: for the property every error is
+    // a refusal (the comparison with the model, tools/props/c09.py `compare`, does not distinguish kinds either).
     let refused = matches!(out, Out::NonSquare | Out::Singular | Out::Invalid | Out::OtherErr(_));
     let a = match input {
         Input::Jagged(rows) => {
